@@ -10,10 +10,11 @@ PID = "C07"
 LEAN_MODULE = "NiVerif.Props.C07"
 NAMESPACE = "Props.C07"
 DRIVER = "drivers/Wfm.lean"
-GEN_MODULES = []
-EXTRA_LEAN_MODULES = ["NiVerif.Model.WfmProto"]
+GEN_MODULES = ["Atomic"]
+EXTRA_LEAN_MODULES = ["NiVerif.Model.WfmProto", "NiVerif.Model.Atomic"]
 THEOREMS = ["failed_step_frame", "rejected_calls_are_noops", "unresizable_capacity", "unresizable_append_rejected",
-            "unresizable_append_waveforms_rejected", "rejection_classes"]
+            "unresizable_append_waveforms_rejected", "rejection_classes",
+            "numeric_atomic", "digital_atomic", "spectrum_atomic", "criterion_rejects_old_orders"]
 RULE = ("seeded histories on the four waveform classes with the malformed stream turned up (wrong dtype, dimension, "
         "signal count, timestamp count, incompatible / non-monotonic timing, out-of-range sizes and indices, unresizable "
         "borrowed buffers, wrong argument types) at every reachable state; around every rejected call the full observable "
@@ -147,7 +148,7 @@ def borrowed_and_name_cases(ctx):
 
 def run(ctx):
     world = H.World(ctx.rng)
-    n_hist = 200 if ctx.quick else 6000
+    n_hist = 200 if ctx.quick else 1500
     w = {"appa": 4, "appw": 4, "load": 4, "setcount": 3, "setcap": 3, "settiming": 3, "write": 2, "get": 1, "pickle": 0, "bad": 5}
     for i in range(n_hist):
         kind = ["analog", "complex", "spectrum", "digital"][i % 4]
